@@ -178,7 +178,7 @@ def il_symtab(defs, refs, nid):
     for i in range(nid):
         L = ['%s,%s,%s,%s' % ('-' if a is None else a, 'o' if k == 'data' else 'f', b01(t), b01(e))
              for (j, k, a, idn, t, e) in defs if j == i and idn == 0]
-        A = [b01(t) for (j, k, a, idn, t, e) in defs if j == i and idn != 0]
+        A = [b01(t) + ('!exported' if e else '') for (j, k, a, idn, t, e) in defs if j == i and idn != 0]   # the specification never exports these
         R = [('L%s/%s' % ('-' if a is None else a, b01(t))) if idn == 0 else 'A' + b01(t) for (j, a, idn, t) in refs if j == i]
         res.append('accept L[%s] A[%s] R[%s]' % (';'.join(L), ';'.join(A), ';'.join(R)))
     return res
@@ -474,6 +474,10 @@ class Checker:
             if bad:
                 probs.append(('broken', 'il-parse', 'unparsed IL lines: %r' % bad[:3]))
             code_exact = (defs, refs)
+            loc = [(i, idn) for (i, k, a, idn, t, e) in defs if idn != 0]
+            if len(loc) != len(set(loc)):
+                dup = sorted(x for x in set(loc) if loc.count(x) > 1)[:3]
+                probs.append(('violation', 'duplicate-local-symbol', 'unit-local symbols defined twice: %s' % ', '.join('$.Lv%d.%d' % x for x in dup)))
             code_tab = il_symtab(defs, refs, nid)
             self.stats['defs_compared'] += len(defs)
             self.stats['refs_compared'] += len(refs)
@@ -532,14 +536,18 @@ class Checker:
                 self.stats['d19'] += 1
             if key == KEY_TT:
                 self.stats['thread_tentative'] += 1
-            if (key, 'v') in self.reported and key in (KEY_D19, KEY_TT):
+            self.stats.setdefault('violations_by_key', {})
+            self.stats['violations_by_key'][key] = self.stats['violations_by_key'].get(key, 0) + 1
+            if (key, 'v') in self.reported and (key in (KEY_D19, KEY_TT) or self.stats['violations_by_key'][key] > 2):
                 continue
             self.reported.add((key, 'v'))
             ctx.violation(msg, head + src, 'c', key=key)
         if model and not viol:
             # the code still meets the specification (or the specification is silent) but the model no longer describes it
             for _, key, msg in model[:1]:
-                if ('model', key) not in self.reported or len(self.reported) < 20:
+                self.stats.setdefault('model_mismatches', {})
+                self.stats['model_mismatches'][key] = self.stats['model_mismatches'].get(key, 0) + 1
+                if self.stats['model_mismatches'][key] <= 3:
                     self.reported.add(('model', key))
                     ctx.broken('correspondence', 'Linkage model vs cproc-qbe (%s)' % key, msg + '\nhistory: ' + ' '.join(toks) + '\n' + src)
         for kind, key, msg in other:
@@ -607,6 +615,7 @@ class Checker:
             src, rc, out, err = self.compile(toks, timeout=20)
             return toks, o, grp, src, rc, out, err
         retry = []
+        failed_batches = []
         for toks, o, grp, src, rc, out, err in vlib.parallel_map(one, work):
             self.stats['units'] += 1
             if grp is not None:
@@ -614,6 +623,7 @@ class Checker:
             probs = self.judge(toks, o, rc, out, err)
             if probs and grp is not None:
                 retry += grp          # find the culprit history
+                failed_batches.append((toks, o, probs, src, grp))
                 continue
             self.nontrivial.add(' '.join(toks))
             if probs:
@@ -622,11 +632,17 @@ class Checker:
                 self.samples.append({'set': label, 'history': ' '.join(toks[:40]), 'cproc': code_verdict(rc, err),
                                      'spec': {str(k): v for k, v in list(o['spec'].items())[:2]}})
         if retry:
+            culprits = set()
             rorc = self.oracle.run(retry)
             for toks, o, grp, src, rc, out, err in vlib.parallel_map(one, [(h, o, None) for h, o in zip(retry, rorc)]):
                 self.stats['units'] += 1
                 probs = self.judge(toks, o, rc, out, err)
                 if probs:
+                    culprits.add(' '.join(toks))
+                    self.handle(toks, o, probs, src)
+            for toks, o, probs, src, grp in failed_batches:
+                # the batch fails although each of its histories passes alone: the interaction is the finding
+                if not any(' '.join(h) in culprits for h in grp):
                     self.handle(toks, o, probs, src)
 
     def handle(self, toks, o, probs, src):
